@@ -21,7 +21,19 @@ type seqCfg struct {
 	andForm map[int]bool // Return+AndReturn (true) or Returns (false)
 }
 
-func val(key, pos int) int { return (key+2)*100000 + pos }
+// dup: in the sequential test neighbouring results may be EQUAL (a retry stub returns the same error twice): position
+// p of stub key serves value (key, p - dupShift(p)), so runs of two or three equal values occur.
+var dupOn bool
+
+func val(key, pos int) int {
+	if dupOn {
+		pos = pos - (pos+key+1)%3%2 - (pos/4)%2 // deterministic, non-decreasing, with repeats
+		if pos < 0 {
+			pos = 0
+		}
+	}
+	return (key+2)*100000 + pos
+}
 
 // install configures the stub and returns a caller: call(key) -> value
 func install(b *mocker.Builder, cfg seqCfg, iv *I) func(key int) int {
@@ -155,6 +167,7 @@ func TestC05Sequential(t *testing.T) {
 	forms := []string{"func", "method", "iface", "func2"}
 	for c := 0; c < n; c++ {
 		form := forms[c%len(forms)]
+		dupOn = c%2 == 1
 		cfg := genCfg(rng, form, 12)
 		rep.Journal(map[string]interface{}{"part": "sequential", "cfg": fmt.Sprint(cfg)})
 		var iv I
@@ -208,6 +221,7 @@ func TestC05Sequential(t *testing.T) {
 			rep.Sample(map[string]interface{}{"part": "sequential", "form": form, "lens": fmt.Sprint(cfg.lens), "trace": trace})
 		}
 	}
+	dupOn = false
 	rep.Stat("sequential_configs", int64(n))
 }
 
